@@ -98,7 +98,7 @@ hooks = subprocess.run(["git", "-C", "/repo", "log", "--format=%h %s"], capture_
 hook_commits = [l.split()[0] for l in hooks if l.split(" ", 1)[1].startswith("verif-hook")]
 m = {
  "version": 1,
- "setup_cmd": "cd /verif/harness && cargo build --release --offline",
+ "setup_cmd": "cd /verif && python3 lib/setup.py",
  "hooks": {"guard": "hctl_verif",
            "enable": "--cfg hctl_verif via /verif/harness/.cargo/config.toml (rustflags); the harness is a separate cargo workspace with a path dependency on /repo",
            "baseline_off_cmd": "cd /repo && cargo test --workspace --no-fail-fast --offline",
